@@ -342,4 +342,11 @@ Section S.
     assert ((r_end r <? now - set_step st) = true) as E2 by (apply Z.ltb_lt; exact H2).
     rewrite E1, E2. cbn [andb]. destruct (r_end r <? now - vs_min_age s); reflexivity.
   Qed.
+  (** a selector that matches the labels of no stored series returns nothing at any instant *)
+  Lemma instant_match_no_label_match d t ms :
+    forallb (fun x => negb (sel_matches re ms (ts_labels x))) d = true -> instant_match re d t ms = [].
+  Proof.
+    intros H. unfold instant_match. rewrite filter_none; [reflexivity|]. intros x Hx.
+    rewrite forallb_forall in H. specialize (H x Hx). apply negb_true_iff in H. rewrite H. reflexivity.
+  Qed.
 End S.
